@@ -19,39 +19,56 @@ def defs_index(fn):
     return idx
 
 
+def _first_field(op):
+    """index of the first field projection of an operand (through downcasts/derefs), or None"""
+    for p in op.get('proj', []):
+        if p['p'] == 'field':
+            return p['i']
+        if p['p'] in ('downcast', 'deref'):
+            continue
+        return None
+    return None
+
+
 def slice_back(fn, local, idx=None, max_nodes=400, through_calls=True, stop_at=None):
     """Backward slice from `local`: returns dict with
        calls: list of (callee def, term, bi) whose results flow into the local,
-       consts: constants flowing in, args: parameter locals reached, locals: all locals visited."""
+       consts: constants flowing in, args: parameter locals reached, locals: all locals visited.
+       Field-sensitive for tuple/struct aggregates: `x = (a, b); y = x.0` follows only `a`."""
     idx = idx or defs_index(fn)
     argc = fn.mir['argc']
     seen = set()
     calls, consts, args, aggrs = [], [], set(), []
-    stack = [local]
+    stack = [(local, None)]
     while stack and len(seen) < max_nodes:
-        l = stack.pop()
-        if l in seen:
+        l, fld = stack.pop()
+        if (l, fld) in seen:
             continue
-        seen.add(l)
+        seen.add((l, fld))
         if 1 <= l <= argc:
             args.add(l)
         for kind, bi, x in idx.get(l, []):
             if kind in ('assign', 'field'):
                 rv = x['rv']
                 k = rv['r']
+                if kind == 'field' and fld is not None and _first_field(x['place']) not in (None, fld):
+                    continue
                 if k in ('ref', 'rawptr', 'discr'):
-                    stack.append(rv['place']['l'])
+                    stack.append((rv['place']['l'], _first_field(rv['place'])))
                 elif k == 'aggr':
                     aggrs.append((rv, bi))
-                    for op in rv['ops']:
+                    ops = rv['ops']
+                    if fld is not None and kind == 'assign' and rv.get('ak') in ('tuple', 'adt') and not rv.get('is_enum') and fld < len(ops):
+                        ops = [ops[fld]]
+                    for op in ops:
                         if 'l' in op:
-                            stack.append(op['l'])
+                            stack.append((op['l'], _first_field(op)))
                         elif op.get('o') == 'const':
                             consts.append(op)
                 else:
                     for op in operands_of_rvalue(rv):
                         if 'l' in op:
-                            stack.append(op['l'])
+                            stack.append((op['l'], _first_field(op)))
                         elif op.get('o') == 'const':
                             consts.append(op)
             else:
@@ -63,10 +80,10 @@ def slice_back(fn, local, idx=None, max_nodes=400, through_calls=True, stop_at=N
                 if through_calls:
                     for a in x['args']:
                         if 'l' in a:
-                            stack.append(a['l'])
+                            stack.append((a['l'], _first_field(a)))
                         elif a.get('o') == 'const':
                             consts.append(a)
-    return {'calls': calls, 'consts': consts, 'args': args, 'locals': seen, 'aggrs': aggrs}
+    return {'calls': calls, 'consts': consts, 'args': args, 'locals': {l for l, _ in seen}, 'aggrs': aggrs}
 
 
 def forward_uses(fn, local, max_nodes=400):
